@@ -20,11 +20,13 @@ def jobs(tier):
                 continue
             if "shared" in e.tags and be == "qaptools":
                 continue
+            if "zkif" in e.tags and not be.startswith("zki"):
+                continue
             js.append(dict(name="%s/%s" % (e.name, be), entry=e.name, backend=be, cfg=dict(n=4, r=2, guard=None, bound=None),
                            tier=tier, catalogue="checks.cat_c13", pid=PID, weight=1, job_timeout=60))
     if tier == "quick":
         for be in ("zkifbellman", "zkifbulletproofs"):
-            for nm in ("constants", "inverse"):
+            for nm in ("constants", "inverse", "inverse_after_field_switch"):
                 js.append(dict(name="%s/%s" % (nm, be), entry=nm, backend=be, cfg=dict(n=4, r=2, guard=None, bound=None),
                                tier=tier, catalogue="checks.cat_c13", pid=PID, weight=1))
     return js
